@@ -192,6 +192,51 @@ Section CG.
     unfold scan_inv, scan_init; cbn; auto.
   Qed.
 
+  (** cg_solver is CG: a finite result of the scan is the k-th iterate of the SAME loop body
+      [cg_step] that scico.solver.cg runs (no preconditioner: M = identity), i.e. the state
+      [iter maxiter (cg_init b x0)] -- in particular num = sum(conj(r) * r) with the
+      conjugation, and alpha, beta as in CG.  [kdivo] is [kdiv] where it is defined. *)
+  Hypothesis M_id : forall v, M v = v.
+  Hypothesis kdivo_some : forall a c q, kdivo a c = Some q -> q = kdiv a c.
+
+  Definition scan_sim (t : st2) (s : st) : Prop :=
+    tx t = sx s /\ tr t = sr s /\ tnum t = snum s /\ (forall p, tp t = Some p -> p = sp s).
+
+  Lemma scan_step_sim t t' s : scan_sim t s -> scan_step t = Some t' -> scan_sim t' (cg_step s).
+  Proof.
+    intros (Hx & Hr & Hn & Hp). unfold scan_step.
+    destruct (tp t) as [p|] eqn:Ep; [|discriminate].
+    specialize (Hp p eq_refl). subst p.
+    destruct (kdivo (tnum t) (ip (sp s) (A (sp s)))) as [alpha|] eqn:Ea; [|discriminate].
+    apply kdivo_some in Ea. subst alpha. intros E. inversion E; subst t'; clear E.
+    unfold scan_sim, cg_step; cbn. rewrite !M_id, Hx, Hr, Hn in *.
+    split; [reflexivity|]. split; [reflexivity|]. split; [reflexivity|].
+    intros p' Hp'.
+    destruct (kdivo (ip (vsub (sr s) (vscale (kdiv (snum s) (ip (sp s) (A (sp s)))) (A (sp s))))
+                        (vsub (sr s) (vscale (kdiv (snum s) (ip (sp s) (A (sp s)))) (A (sp s)))))
+                    (snum s)) as [beta|] eqn:Eb; [|discriminate].
+    apply kdivo_some in Eb. inversion Hp'; subst. reflexivity.
+  Qed.
+
+  Theorem scan_is_cg_iter n : forall t t' s, scan_sim t s -> scan n t = Some t' -> scan_sim t' (iter n s).
+  Proof.
+    induction n; cbn; intros t t' s H E.
+    - inversion E; subst; auto.
+    - destruct (scan_step t) as [t1|] eqn:E1; [|discriminate].
+      eapply IHn; [eapply scan_step_sim; eauto | exact E].
+  Qed.
+
+  Theorem cg_solver_is_cg_iterate maxiter b x0 x :
+    cg_solver maxiter b x0 = Some x -> x = sx (iter maxiter (cg_init b x0)).
+  Proof.
+    unfold cg_solver. destruct (scan maxiter (scan_init b x0)) as [t|] eqn:E; [|discriminate].
+    intros H; inversion H; subst.
+    assert (Hs : scan_sim (scan_init b x0) (cg_init b x0)).
+    { unfold scan_sim, scan_init, cg_init; cbn. rewrite !M_id. repeat split; auto.
+      intros p Hp. inversion Hp; reflexivity. }
+    destruct (scan_is_cg_iter maxiter _ _ _ Hs E) as (Hx & _). exact Hx.
+  Qed.
+
   (** The defect, for all inputs: once num = <r,r> is exactly zero (the iterate is the
       exact solution) two more scan steps turn everything into nan. *)
   Theorem scan_nan_after_convergence s n : tnum s = kzero -> scan (S (S n)) s = None.
